@@ -29,7 +29,7 @@ def sanitize(s):
 
 def finish(prop, pd, tier, seed, results, wall, write_baseline=False):
     kf = load_json(os.path.join(VERIF, "known_findings.json"), {"findings": []})
-    findings = [f for f in kf.get("findings", []) if f.get("property") == prop]
+    findings = [f for f in kf.get("findings", []) if f.get("property") == prop or prop in f.get("also_in", [])]
     baseline = load_json(os.path.join(VERIF, "baseline_units.json"), {})
     base_units = set(baseline.get(prop, []))
 
